@@ -5,7 +5,7 @@ from __future__ import annotations
 
 import ast
 
-from .affine import Env, Form, Lit, NonAffine, State, exec_block, lin_in, literal, subst_form
+from .affine import Env, Form, Lit, NonAffine, State, exec_block, lin_in, literal, normalize_lits, infeasible, subst_form
 from .cfg import CFG
 from .core import AnalysisError
 from .model import norm
@@ -23,6 +23,7 @@ class PathSummary:
         self.kind = "return"  # return | raise | continue | break
         self.lines = []
         self.calls = []  # expression-statement calls other than logging
+        self.yields = []  # yielded expressions
         self.undecided = []
 
     def describe(self):
@@ -77,7 +78,7 @@ def _expand_test(e, pol, fi, env, ps, state, data_eq=None):
     ps.opaque.add((norm(e), pol))
 
 
-def summarize(fi=None, body=None, env=None, data_eq=None, field_roots=(), limit=400):
+def summarize(fi=None, body=None, env=None, data_eq=None, field_roots=(), limit=400, init_state=None):
     """Path summaries of a loop-free function (fi) or statement list (body)."""
     g = CFG(fi.node if body is None else None, body=body)
     if g.has_loop():
@@ -86,6 +87,8 @@ def summarize(fi=None, body=None, env=None, data_eq=None, field_roots=(), limit=
     out = []
     for path in g.paths(limit=limit):
         ps = PathSummary()
+        if init_state is not None:
+            ps.state = init_state.copy()
         st = ps.state
         try:
             for nid, lab in path:
@@ -128,6 +131,8 @@ def summarize(fi=None, body=None, env=None, data_eq=None, field_roots=(), limit=
                         nm = norm(a.value.func)
                         if nm.split(".")[0] not in ("logger", "logging", "print"):
                             ps.calls.append(a.value)
+                    elif isinstance(a, ast.Expr) and isinstance(a.value, ast.Yield):
+                        ps.yields.append(a.value.value)
                     elif isinstance(a, (ast.Expr, ast.Pass)):
                         pass
                     else:
@@ -139,5 +144,20 @@ def summarize(fi=None, body=None, env=None, data_eq=None, field_roots=(), limit=
                 ps.kind = "raise"
         except NonAffine as ex:
             ps.undecided.append(str(ex))
+        ps.lits = normalize_lits(ps.lits)
+        if infeasible(ps.lits) or any((t, not p) in ps.opaque for t, p in ps.opaque):
+            continue  # contradictory literals: not a real path
         out.append(ps)
     return out, g
+
+
+def seed_state(stmts, env):
+    """Affine values of the simple assignments in `stmts` (e.g. constants defined before a loop); non-affine ones are skipped."""
+    st = State()
+    for s in stmts:
+        if isinstance(s, ast.Assign) and len(s.targets) == 1 and isinstance(s.targets[0], ast.Name):
+            try:
+                exec_block([s], env, st)
+            except NonAffine:
+                pass
+    return st
